@@ -850,6 +850,7 @@ type assignLoc struct {
 	refKind string
 	gsort   Sort
 	ptype   types.Type
+	slc     *Term // elems(s): the slice value
 }
 
 // assignLoc resolves an assigns target: x.f, heap(T.f), elems(s), *p
@@ -911,7 +912,11 @@ func (env *SpecEnv) assignLoc(e *SExpr) *assignLoc {
 			env.fail("heap(): no field %s", a.Name)
 		case "elems":
 			x := env.expr(e.Args[0])
-			return &assignLoc{ref: SlcBase(x.t), refKind: "elem"}
+			var et types.Type
+			if sl, ok := x.typ.Underlying().(*types.Slice); ok {
+				et = sl.Elem()
+			}
+			return &assignLoc{ref: SlcBase(x.t), refKind: "elem", ptype: et, slc: x.t}
 		case "deref":
 			x := env.expr(e.Args[0])
 			return &assignLoc{ref: x.t, refKind: "pcell"}
